@@ -22,6 +22,7 @@ func init() {
 			"R3":  "fold flag and fold round together, only in the fold method",
 			"R4":  "3-bet uniqueness loops; guard object = acting player at every call site",
 			"R5":  "per-hand reset from an all-zero constructor",
+			"R6":  "the engine's hand-state hook refreshes the chance statistics from every state received while the table is playing",
 		},
 		Assumptions: []string{"no emitted hand snapshot carries the game-level Started event during betting (pokerface; demonstrated by triage/TestF2)"},
 		Run:         checkC14,
@@ -63,6 +64,8 @@ func statsObj(addr *Sym) *Sym { // the TablePlayerGameStatistics object a field 
 
 func checkC14(c *Ctx) {
 	p := c.P
+	// R6: the chance flags are refreshed from every hand state received while playing
+	checkUpdateHook(c, "R6", "register", "stats")
 	pairs := didChancePairs(p)
 	c.Min("R1", "did/chance pairs in the statistics struct", len(pairs), 9)
 	ams := p.engineActionMethods()
